@@ -32,7 +32,7 @@ on the unchanged code and exits non-zero / prints FAIL with your change, by exhi
 Verify all three facts yourself (tests pass with the change; demo fails with the change; demo passes without it). To switch,
 save your change with `git diff > /tmp/mychange_{wt_tag}.patch`, undo it with `git apply -R` of that file and re-apply it with `git apply` —
 NEVER use `git stash` (the stash is shared between all worktrees of this repository and other people are using it). Do not commit. Leave the change applied in the worktree as an uncommitted diff and the demo file in place.
-Reply with: the diff (git diff), what it needs in order to manifest, the demo's output with and without the change, and the
+Reply (under 300 words) with: the diff (git diff), what it needs in order to manifest, the key lines of the demo output with and without the change, and the
 test-suite summary line with the change.
 """
 out = pathlib.Path(f"/tmp/seed_prompt_{pid}_{k}.txt"); out.write_text(text); print(out)
